@@ -459,9 +459,17 @@ def run_deepcopy(c):
 
 def run_grow(c):
     sp = live_space(c)
+    gmin, gmax = sp.min_depth, sp.max_depth
+    if c.get('deeper_space'):
+        # grow(min_depth, max_depth) is a public method with its own arguments: called with a smaller max_depth than the space's own
+        # (the space allows deeper trees than this call asks for)
+        try:
+            sp.max_depth = gmax + int(c['deeper_space'])
+        except Exception:  # noqa: BLE001
+            pass
     s = Script(c['ds'])
     with s:
-        t, exc = guarded(lambda: sp.grow(sp.min_depth, sp.max_depth))
+        t, exc = guarded(lambda: sp.grow(gmin, gmax))
     if exc:
         c['exp'], c['exc'] = EXC, exc
         c['o8'] = 'grow raised ' + exc
@@ -825,6 +833,9 @@ def gen_cases(quick):
     for (mn, mx) in ((1, 1), (2, 2), (1, 2), (2, 3), (1, 3)):
         for ds in all_grow_scripts(mx - mn, len(funs), 2, ar):
             cases.append({'fam': 'grow', 'nt': 2, 'funs': funs, 'min': mn, 'max': mx, 'ds': ds})
+            if (mn, mx) in ((1, 2), (2, 3)):
+                # the same call on a space whose own max_depth is two levels deeper than the call's argument
+                cases.append({'fam': 'grow', 'nt': 2, 'funs': funs, 'min': mn, 'max': mx, 'ds': ds, 'deeper_space': 2})
     for _ in range(40 if quick else 1500):
         nfun = r.randint(0, 4)
         fs = [r.randrange(10) for _ in range(nfun)]
